@@ -278,17 +278,20 @@ def w_bfs(item, rep):
 
     s0 = rep.states
     done = bfs([(mk_state(cls_name, aw), "init")], lambda st: ops, apply, canon, depth, rep)
-    rep.part(part, states=rep.states - s0, depth_completed=done, alphabet=len(ops))
-    if done < depth:
-        rep.notes[part] = "state space closed at depth %d (< %d): every longer sequence revisits a visited state" % (done, depth)
+    rep.part(part, states=rep.states - s0, depth_completed=done, alphabet=len(ops), closed=bool(done < depth))
 
 
 def run_pipe0(tier, seed, rep, cls_name="full", pid=PID, only=None):
-    depth = 6 if tier == "quick" else int(__import__("os").environ.get("C08_DEPTH", 8))
+    depth = 6 if tier == "quick" else 16  # (the state space closes at depth 12..13: see notes in the evidence)
     items = [(cls_name, aw, seed, depth, pid) for aw in (5, 4, 3)]
     if only:
         items = [it for it in items if ("aw%d" % it[1]) in only]
     pmap(w_bfs, items, rep)
+    closed = sorted(k for k, p in rep.parts.items() if p.get("closed"))
+    if closed:
+        rep.notes["closure"] = ("no new state at depth %s for %s: every longer call sequence over this alphabet only revisits "
+                                "explored states, so the result holds for sequences of any length" % (
+                                    "/".join(str(rep.parts[k]["depth_completed"]) for k in closed), ", ".join(closed)))
     return dict(depth=depth, address_lengths=[it[1] for it in items],
                 alphabet={("aw%d" % aw): [op_str(o) for o in alphabet(cls_name, aw)] for aw in (5, 3)})
 
@@ -312,6 +315,7 @@ def run(tier, seed, rep, only=None):
                      "'TX mode' = PWR_UP=1 and PRIM_RX=0; a powered-down radio straight after the constructor is in neither mode",
                      "CPython 3.12 only"],
         min_outcomes=6,
+        explanation=rep.notes.get("closure", ""),
     )
 
 
